@@ -32,10 +32,10 @@ for d in sorted(glob.glob(os.path.join(ROOT, "seeded", "*"))):
         det_part = json.load(open(dj))
         fin["detection"] = det_part.get("detection", {})
         fin["route"] = det_part.get("route", "harness copy rebuilt against the patched scratch worktree")
-    elif os.path.isfile(sj) and os.path.isfile("/root/work/seeded_history.json") and json.load(open("/root/work/seeded_history.json")).get(os.path.basename(d)):
+    elif os.path.isfile(sj) and os.path.isfile("" + os.path.join(ROOT, "seeded", "history_round1.json") + "") and json.load(open("" + os.path.join(ROOT, "seeded", "history_round1.json") + "")).get(os.path.basename(d)):
         # suite and demo confirmed at the current HEAD; detection taken from the earlier verification run(s)
         fin = json.load(open(sj))
-        runs = sorted(json.load(open("/root/work/seeded_history.json"))[os.path.basename(d)], key=lambda x: x["run"])
+        runs = sorted(json.load(open("" + os.path.join(ROOT, "seeded", "history_round1.json") + ""))[os.path.basename(d)], key=lambda x: x["run"])
         last = runs[-1]
         det = {}
         for pp, rc in last["check_exits"].items():
@@ -81,7 +81,9 @@ for d in sorted(glob.glob(os.path.join(ROOT, "seeded", "*"))):
         "detected": own.get("exit") == 1,
         "detected_by": detected_by,
     }
-    hist_file = "/root/work/seeded_history.json"
+    if fin.get("demo_exit_with_patch") == 0:
+        meta["status"] = "superseded: at the final /repo HEAD the demonstration passes with the change applied (the code it touched was rewritten by fix e7f9b4a), so the change no longer breaks the property; kept for the record, not counted"
+    hist_file = "" + os.path.join(ROOT, "seeded", "history_round1.json") + ""
     extra = os.path.join(d, "history.json")
     if os.path.isfile(hist_file):
         h = json.load(open(hist_file)).get(sid)
